@@ -48,6 +48,14 @@ def check(spec, queries=None):
                         n += 1
                         exp, amb = regcommon.best(chain, req, p, name)
                         if amb:
+                            got = r.lookup(req, p, name)
+                            ok = regcommon.acceptable(chain, req, p, name)
+                            if not any(got is v for v in ok):
+                                bad.append(('lookup-tie', 'lookup(%s, %s, %r) on registry %d returned registration #%s although a tied registration '
+                                            'with a strictly more general provided interface exists (allowed: %s)' % (
+                                                common.names(req), p.__name__, name, regs.index(r),
+                                                vals.index(got) if got in vals else got, [vals.index(v) for v in ok])))
+                                return bad, n
                             continue
                         got = r.lookup(req, p, name)
                         if got is not exp:
@@ -79,6 +87,23 @@ def random_spec(rnd):
     return (shape, flav, tuple(reg_bases), tuple(regs), class_ifaces)
 
 
+def provided_order_spec(rnd):
+    """one required key and name, registrations for many provided interfaces of a deeper DAG in a random order of
+    registration (the order in which the extendors lists are built must not matter)"""
+    n = rnd.randint(4, 6)
+    shape = common.random_shape(rnd, n, 2)
+    if rnd.random() < 0.5:
+        # a root, an interface with several children, and interfaces unrelated to it
+        n = rnd.randint(5, 6)
+        shape = ((), (0,), (1,), (1,), (0,)) + (((rnd.choice([0, 1, 4]),),) if n == 6 else ())
+    ar = rnd.choice([0, 1])
+    req = tuple(rnd.randrange(n + 2) for _ in range(ar))
+    order = [k for k in range(n) if rnd.random() < 0.85]
+    rnd.shuffle(order)
+    regs = [(0, req, k, '') for k in order]
+    return (shape, rnd.choice('AV'), ((),), tuple(regs), ())
+
+
 def replay(spec):
     bad, _ = check(spec)
     for sig, what in bad:
@@ -87,17 +112,17 @@ def replay(spec):
 
 
 def run(ctx):
-    ctx.rule = ('random worlds: interface DAG <=5 nodes (<=2 ordered bases), one class declaring <=2 interfaces, registry '
+    ctx.rule = ('random worlds (three of four: a single key registered for most provided interfaces of a DAG <=6 in random order): interface DAG <=5 nodes (<=2 ordered bases), one class declaring <=2 interfaces, registry '
                 'chain <=3 of either flavour, <=6 registrations of arity 0..3 with None / class-specification keys and two '
                 'names; every lookup key over all specifications (arity of the registrations, 0 and 1) x all provided x '
                 'names compared with the brute-force ranking of the statement (ties between incomparable provided '
-                'interfaces skipped); distinct = distinct worlds')
+                'interfaces: the answer must be one of the most general tied ones); distinct = distinct worlds')
     ctx.bounds = 'interfaces<=5, registries<=3, registrations<=6, arity<=3'
-    trials = 400 if ctx.tier == 'quick' else 5000
+    trials = 1600 if ctx.tier == 'quick' else 12000
     for t in range(trials):
         if ctx.out_of_time() or ctx.too_many():
             return
-        spec = random_spec(ctx.rnd)
+        spec = random_spec(ctx.rnd) if t % 4 == 0 else provided_order_spec(ctx.rnd)
         bad, n = check(spec)
         ctx.evaluations += n
         ctx.distinct.add(spec)
